@@ -184,14 +184,16 @@ struct WOut {
     completion: Vec<usize>,
 }
 
-fn run_writer(blocks: Vec<Vec<u8>>, level: u8, policy: usize, want: usize, seed: u64, fail_at: Option<usize>) -> Option<WOut> {
+fn run_writer(blocks: Vec<Vec<u8>>, level: u8, policy: usize, want: usize, seed: u64, fail_at: Option<usize>, fail_once: bool) -> Option<WOut> {
     let gate = Gate::new();
     install_hook(gate.clone(), Arc::new(HashMap::new()));
     let g2 = gate.clone();
     let ctl = std::thread::spawn(move || g2.control(policy, want, seed));
     let g3 = gate.clone();
-    let out = with_watchdog(20, move || {
-        let sink = SharedSink::new(ScriptSink::new(vec![], usize::MAX, fail_at.map(|k| (k, std::io::ErrorKind::Other))));
+    let out = with_watchdog(8, move || {
+        let mut script = ScriptSink::new(vec![], usize::MAX, fail_at.map(|k| (k, std::io::ErrorKind::Other)));
+        script.fail_once = fail_once;
+        let sink = SharedSink::new(script);
         let lvl = bgzf::io::writer::CompressionLevel::new(level).unwrap();
         let mut w = bgzf::io::multithreaded_writer::Builder::default().set_compression_level(lvl).build_from_writer(sink.clone());
         let mut results = vec![];
@@ -250,8 +252,8 @@ fn writer_case(ctx: &mut Ctx, threads: usize, sub: u64, emit: bool) {
     let want = 1 + rng.below(threads as u64 + 1) as usize;
     let expect = st_sink(&blocks, level);
     ctx.eval(if nblocks >= 2 { Some(fnv(case.as_bytes())) } else { None });
-    match run_writer(blocks.clone(), level, policy, want, sub, None) {
-        None => ctx.fail("mt-writer-hang", format!("multithreaded writer did not finish within 20 s (or panicked): {nblocks} blocks, pool {threads}, policy {policy}"), case),
+    match run_writer(blocks.clone(), level, policy, want, sub, None, false) {
+        None => ctx.fail("mt-writer-hang", format!("multithreaded writer did not finish within 8 s (or panicked): {nblocks} blocks, pool {threads}, policy {policy}"), case),
         Some(o) => {
             if o.results.iter().any(|r| r != "ok") || o.finish != "ok" {
                 ctx.fail("mt-writer-error", format!("healthy sink but calls returned {:?} / finish {}", o.results, o.finish), case.clone());
@@ -278,13 +280,14 @@ fn writer_fail_case(ctx: &mut Ctx, threads: usize, sub: u64, k: usize) {
     let blocks: Vec<Vec<u8>> = (0..nblocks).map(|i| block_payload(&mut rng, i)).collect();
     let policy = rng.below(4) as usize;
     ctx.eval(Some(fnv(case.as_bytes())));
-    match run_writer(blocks.clone(), 6, policy, 2, sub, Some(k)) {
-        None => ctx.fail("mt-writer-hang", format!("multithreaded writer with a sink failing at call {k} did not return within 20 s (or panicked)"), case),
+    let once = rng.chance(1, 2);
+    match run_writer(blocks.clone(), 6, policy, 2, sub, Some(k), once) {
+        None => ctx.fail("mt-writer-hang", format!("multithreaded writer with a sink failing at call {k} did not return within 8 s (or panicked)"), case),
         Some(o) => {
             let any_err = o.results.iter().any(|r| r != "ok") || (o.finish != "ok" && o.finish != "skipped");
             let complete = o.sink == st_sink(&blocks, 6);
             if !any_err && !complete {
-                ctx.fail("mt-writer-hidden-failure", format!("sink failed at call {k} but every call incl. finish returned Ok and the file is incomplete: [{}]", block_ids_of_sink(&o.sink)), case);
+                ctx.fail("mt-writer-hidden-failure", format!("sink failed at call {k} ({}) but every call incl. finish returned Ok and the file is incomplete: [{}]", if once { "that call only" } else { "and all later calls" }, block_ids_of_sink(&o.sink)), case);
             } else {
                 ctx.bump(if any_err { "writer_fail_surfaced" } else { "writer_fail_index_beyond_run" });
             }
@@ -357,33 +360,38 @@ fn reader_case(ctx: &mut Ctx, threads: usize, sub: u64) {
     let mut rng = Rng::new(sub);
     let case = format!("reader {threads} {sub}");
     let nblocks = 1 + rng.below(9) as usize;
-    let mut w = bgzf::io::Writer::new(Vec::new());
+    // the file is assembled member by member so that empty members can sit mid-file
+    let mut file: Vec<u8> = vec![];
     let mut cstart = vec![];
     let mut lens = vec![];
     for i in 0..nblocks {
-        cstart.push(w.position());
+        if rng.chance(1, 5) {
+            file.extend_from_slice(&super::c01::EOF); // an empty member mid-file
+        }
+        cstart.push(file.len() as u64);
         let b = block_payload(&mut rng, i);
         lens.push(b.len());
+        let mut w = bgzf::io::Writer::new(Vec::new());
         w.write_all(&b).unwrap();
-        w.flush().unwrap();
-        if rng.chance(1, 6) {
-            // an empty member mid-file
-            let pos = w.position();
-            let _ = pos;
-        }
+        let mut m = w.finish().unwrap();
+        m.truncate(m.len() - 28);
+        file.extend_from_slice(&m);
     }
-    let mut file = w.finish().unwrap();
+    let cend: Vec<usize> = cstart.iter().zip(&lens).map(|(&c, _)| {
+        // a member's end = its own BSIZE + 1
+        let c = c as usize;
+        c + u16::from_le_bytes([file[c + 16], file[c + 17]]) as usize + 1
+    }).collect();
+    file.extend_from_slice(&super::c01::EOF);
     let eof_pos = (file.len() - 28) as u64;
     // optional corruption of one block's CRC (block-level error) — checksum field of member j
     let corrupt = if rng.chance(1, 3) { Some(rng.below(nblocks as u64) as usize) } else { None };
     if let Some(j) = corrupt {
-        let end = if j + 1 < nblocks { cstart[j + 1] as usize } else { eof_pos as usize };
-        file[end - 8] ^= 0x55;
+        file[cend[j] - 8] ^= 0x55;
     }
     let mut ids = HashMap::new();
     for (i, &c) in cstart.iter().enumerate() {
-        let end = if i + 1 < nblocks { cstart[i + 1] as usize } else { eof_pos as usize };
-        ids.insert(fnv(&file[c as usize..end]), i);
+        ids.insert(fnv(&file[c as usize..cend[i]]), i);
     }
     // ops
     let mut ops = vec![];
@@ -412,7 +420,7 @@ fn reader_case(ctx: &mut Ctx, threads: usize, sub: u64) {
     let ctl = std::thread::spawn(move || g2.control(policy, want, sub));
     let ops2 = ops.clone();
     let file2 = file.clone();
-    let got = with_watchdog(20, move || {
+    let got = with_watchdog(8, move || {
         let mut mt = bgzf::io::MultithreadedReader::new(Cursor::new(file2));
         let r = run_reader_ops(&mut mt, &|r| u64::from(r.virtual_position()), &mut |r, c, u| r.seek_to_virtual_position(bgzf::VirtualPosition::try_from((c, u)).unwrap()).map(|_| ()), &ops2);
         let fin = mt.finish().map(|_| ()).map_err(|e| errclass(&e).to_string());
@@ -424,7 +432,7 @@ fn reader_case(ctx: &mut Ctx, threads: usize, sub: u64) {
     let completion = gate.st.lock().unwrap_or_else(|e| e.into_inner()).ended.clone();
     ctx.eval(if nblocks >= 2 { Some(fnv(case.as_bytes())) } else { None });
     match got {
-        None => ctx.fail("mt-reader-hang", format!("multithreaded reader did not finish within 20 s (or panicked): {nblocks} blocks, pool {threads}, ops {ops:?}"), case),
+        None => ctx.fail("mt-reader-hang", format!("multithreaded reader did not finish within 8 s (or panicked): {nblocks} blocks, pool {threads}, ops {ops:?}"), case),
         Some((r, _fin)) => {
             // compare up to and including the first error; the state after an error is unspecified
             let cut = |v: &[String]| -> Vec<String> {
